@@ -82,3 +82,10 @@ def search(ctx):
 
 def replay(ctx, case):
     return replay_eval(ctx, "C03", case)
+
+
+MANIFEST = dict(
+    text="Proof (MODULAR/PARTIAL): Knill's product formula prod_i(1+(lam_i-1)E_i) = sum_i lam_i E_i for orthogonal idempotents summing to 1 (C03_knill_product, any field); bit-level specifications of the translated index helpers _a/_b/_k_s of the column-by-column scheme. Tie: translator (regenerated every run, validated by execution); monitor on every Schur decomposition used by the Knill scheme (unitary basis, diagonal form: the theorem's premise that numpy eig violated before the repair). CCD sweep and CSD scheme are evaluated: leading columns of the operator vs the isometry, every scheme, every m, structured families.",
+    note='Modelled, not verified: scipy schur/null_space, Qiskit UCGate / multi-controlled gates; CCD and CSD schemes evaluated only.',
+    technique='Coq/mathcomp proof + translator-regenerated definitions + contract monitors + numpy operator comparison',
+    design_ref='DESIGN.md section 4, C03')
